@@ -7,6 +7,23 @@ TRUSTED_CORE = [
     "z3 4.x/5.x (Python API) and cvc5 1.0.3 as back ends",
 ]
 
+SCHED_ASSUMPTIONS = [
+    "cooperative asyncio: exactly one task runs between two awaits, so the code between two awaits is atomic; the rely/guarantee rule used at every "
+    "await (oblige invariant + guarantee, havoc shared state under invariant + rely, assume the awaited postcondition) is a meta-theorem argued in "
+    "DESIGN section 6, not mechanised",
+    "assumed contracts of asyncio (gather completes when all awaited conditions hold; wait returns at an arbitrary later point; Event), heapq "
+    "(heappush / heappop / [0] on a multiset of times), tqdm and loguru (no effect)",
+    "times and delays are terms of uninterpreted sorts; every axiom used about +, <, <=, shapes and tiers carries provenance to a discharged C08 "
+    "obligation on mosaik/tiered_time.py (the derived, trigger-friendly order facts are re-proved from the base axioms by lemma "
+    "derived_order_axioms on every run); outside the known finding F11 (K_mixed: delays with different cut-offs, equal below the smaller one)",
+    "the connection tables (input_delays, successors, triggers, triggering_ancestors ...) are static while run() is active and well-typed "
+    "(static_ok / trig_static); that connect_one builds them so is what its contract proves per connection, the link between the two is argued "
+    "in DESIGN, not mechanised; triggering_ancestors as computed by cache_triggering_ancestors is covered by a bounded stand-in only",
+    "simulators are external: every reply value is arbitrary (symbolic), a call may raise ConnectionError",
+    "non-real-time mode (rt_factor None) for sim_process and its coroutines; the real-time parts are decided under C17",
+    "Python ints are mathematical integers (true in CPython); interpreter not run with -O (assert statements execute)",
+]
+
 
 def contract_tasks(module, prop, configure=None, names=None, tier="quick"):
     mod = importlib.import_module(module)
